@@ -329,7 +329,7 @@ def _parts(tier):
     three = [k for k, v in SCENARIOS.items() if len(v) == 3]
     pb = 2 if tier == 'quick' else 3
     deep = ('shell2|shell1', 'shell|push') if tier == 'quick' else tuple(two)
-    out = [Part('threads-2', [{'scenario': k} for k in deep], run_threads, {'sched': pb, 'dev-order': None}, split=2,
+    out = [Part('threads-2', [{'scenario': k} for k in deep], run_threads, {'sched': pb, 'dev-order': None, 'lock-timeout': 1}, split=2,
                 what='2 threads, scheduling points at locks and transport calls, all device wire orders', bound='preemptions <= %d' % pb)]
     rest = [k for k in two if k not in deep]
     if rest:
@@ -347,7 +347,7 @@ def _parts(tier):
                         what='line-level scheduling points inside the I/O manager, the packet store, _open and the filesync helpers', bound='preemptions <= 1, <=1 wire-order deviation'))
         out.append(Part('threads-lines-pb2', [{'scenario': 'shell|stat', 'trace': 1}], run_threads, {'sched': 2, 'dev-order': 0}, split=3,
                         what='line-level scheduling points, two preemptions', bound='preemptions <= 2, one scenario'))
-    out.append(Part('threads-short-writes', [{'scenario': k, 'wcap': True} for k in ('shell2|shell1', 'shell|push')], run_threads, {'sched': 1, 'wcap': 1, 'dev-order': 0}, split=2,
+    out.append(Part('threads-short-writes', [{'scenario': k, 'wcap': True} for k in ('shell2|shell1', 'shell|push')], run_threads, {'sched': 1, 'wcap': 1, 'dev-order': 0, 'lock-timeout': 1}, split=2,
                     what='2 threads over a transport that writes short: one preemption x one short write', bound='preemptions <= 1, short writes <= 1'))
     out.append(Part('tasks', [{'scenario': k} for k in SCENARIOS] + [{'scenario': k, 'mirror': True} for k in SCENARIOS], run_tasks, {'io-order': None, 'dev-order': None}, split=2,
                     what='asyncio tasks: every completion order of pending transport I/O x every device wire order', bound='complete (no bound)'))
